@@ -118,7 +118,9 @@ def gen_one(rng, i, tier):
             "fnr": _rates(rng, kf, exact, len(pos), len(pos) + ep),
             "fpr": _rates(rng, kp, exact, len(neg), len(neg) + en),
             "thr": _thresholds(rng, kt, pos, neg),
-            "nb": nb, "aslist": rng.random() < 0.2, "dtype": dtype}
+            "nb": nb, "aslist": rng.random() < 0.2, "dtype": dtype,
+            # nb_points as a NumPy integer scalar / 0-d array (np.int64(50), the result of np.minimum(50, n))
+            "nbform": rng.choice(["int", "int", "int", "np.int64", "np.int32", "0d"])}
 
 
 def supplied(inp):
@@ -181,6 +183,8 @@ def build(inp) -> Case:
     al = inp["aslist"]
 
     def kwargs(nb_):
+        if nb_ is not None and inp.get("nbform", "int") != "int":
+            nb_ = {"np.int64": np.int64, "np.int32": np.int32, "0d": np.array}[inp["nbform"]](nb_)
         return dict(fnr=_arg(inp["fnr"], al), fpr=_arg(inp["fpr"], al), thresholds=_arg(inp["thr"], al),
                     nb_points=nb_, x_axis=xaxis)
 
@@ -198,6 +202,8 @@ def build(inp) -> Case:
     tags = [inp["stream"], f"cfg={inp['sc']},{inp['ec']}", f"xaxis={xaxis if xaxis in AXES else 'invalid'}",
             f"nb={nb}", "supplied" if nsup else "default-path", "exact-arith" if ex else "float-arith"]
     tags.append("dtype=" + inp.get("dtype", "f8"))
+    if inp.get("nbform", "int") != "int" and nb is not None:
+        tags.append("nb_points=" + inp["nbform"])
     for k in ("fnr", "fpr", "thr"):
         v = inp[k]
         tags.append(f"{k}:" + ("none" if v is None else "empty" if len(v) == 0 else "single" if len(v) == 1 else "several"))
@@ -233,7 +239,15 @@ def build(inp) -> Case:
         return case
 
     c = res[1]
-    othr, ofnr, ofpr = _flat(c.thresholds), _flat(c.fnr), _flat(c.fpr)
+    # the returned curve is the caller's: its threshold array handed to a later roc() call as the only support (a common
+    # way to evaluate a second object on the same grid) must come back unchanged, and so must the curve
+    kept = [np.array(getattr(c, a_), copy=True) for a_ in ("thresholds", "fnr", "fpr")]
+    common.call(roc, s, thresholds=c.thresholds, x_axis="fnr" if xaxis != "fnr" else "fpr")
+    if any(not np.array_equal(np.asarray(getattr(c, a_)), k_, equal_nan=True) for a_, k_ in zip(("thresholds", "fnr", "fpr"), kept)):
+        pre.append(Issue("PROPFAIL", "rates", f"{desc}: after roc(scores, thresholds=curve.thresholds) the earlier curve changed: thresholds "
+                         f"{kept[0].tolist()[:6]} -> {np.asarray(c.thresholds).tolist()[:6]} while fnr/fpr stayed: its rates are no longer "
+                         f"the rates at its thresholds", sig + "/kept-curve"))
+    othr, ofnr, ofpr = _flat(kept[0]), _flat(kept[1]), _flat(kept[2])
     for name, v in (("thresholds", c.thresholds), ("fnr", c.fnr), ("fpr", c.fpr)):
         if np.asarray(v).ndim != 1:
             pre.append(Issue("PROPFAIL", "length", f"{desc}: {name} has shape {np.asarray(v).shape}", sig + "/shape"))
